@@ -1,42 +1,40 @@
 ---- MODULE Sim_Resources ----
-(* Simulation wrapper of Resources: the same actions, parameters drawn with RandomElement (biased
-   towards enabled instances and towards nesting) so that one simulation step evaluates a few
-   instances instead of every parameter combination; `coin` selects which actions are offered in a
-   step; `hist` is the behaviour (sequence of labels), printed as JSON at SimDepth. *)
+(* Simulation wrapper of Resources: the same actions with parameters drawn at random (biased towards
+   enabled instances and towards nesting) so that one simulation step evaluates a few instances
+   instead of every parameter combination; `coin` selects which actions are offered in a step;
+   `hist` is the behaviour (sequence of labels), printed as JSON at SimDepth.
+   TLC facts behind the shape: (1) a constant-level expression such as RandomElement(Slots) that is
+   passed as an operator argument is evaluated ONCE for the whole run, so every draw goes through Rnd,
+   which mentions a variable; (2) a LET definition is re-evaluated at every use, an operator parameter
+   is evaluated once per call - so every draw is bound to an operator parameter before it is used. *)
 EXTENDS MC_Resources
 VARIABLE hist
-Pick(S, dflt) == IF S = {} THEN dflt ELSE RandomElement(S)
+Rnd(S) == RandomElement(IF nops >= 0 THEN S ELSE {})
+Pick(S, dflt) == IF S = {} THEN dflt ELSE Rnd(S)
 SimInit == Init /\ hist = << >>
 Cand(l) == SlotPlaces \cup StorePlaces \cup {pl \in NestedPlaces : l[pl.a] # Nowhere}
 FreeFor(u) == LET l1 == Take(loc, u) IN {pl \in Cand(l1) : Free(l1, pl, u)}
 PreferNested(S) == IF S \cap NestedPlaces # {} THEN S \cap NestedPlaces ELSE S
-SimStep ==
-  LET live == Live(loc)
-      coin == RandomElement(1..10)
-      u    == Pick(live, 1)
-      v    == Pick(live, 1)
-      w    == Pick(live \cup {0}, 0)
-      ff   == FreeFor(u)
-      d1   == Pick(IF coin <= 4 THEN PreferNested(ff) ELSE ff, SlotPl(1))
-      d2   == Pick(Cand(loc), SlotPl(1))
-      d3   == RandomElement(SlotPlaces \cup StorePlaces)
-      d4   == Pick({loc[x] : x \in live \ {u}}, SlotPl(1))
-      i    == RandomElement(Slots)
-      j    == RandomElement(Slots)
-      fn   == RandomElement(BOOLEAN)
-  IN \/ Begin
+MoveSome(u, nested, fn) == Move(u, Pick(IF nested THEN PreferNested(FreeFor(u)) ELSE FreeFor(u), SlotPl(1)), fn)
+BadSome(u) == BadMove(u, Pick({loc[x] : x \in Live(loc) \ {u}}, SlotPl(1)))
+S2(coin, u, v, w, i, j, fn, d2, d3) ==
+     \/ Begin
      \/ ((coin = 1 /\ nops >= 3) \/ nops >= MaxOps) /\ Commit
      \/ coin = 2 /\ nops >= 2 /\ Abort
-     \/ (coin \in {1, 2, 3} \/ live = {}) /\ Create(SlotPl(i))
+     \/ (coin \in {1, 2, 3} \/ Live(loc) = {}) /\ Create(SlotPl(i))
      \/ coin = 3 /\ Create(d2)
-     \/ coin \in {3, 4, 5, 6, 7} /\ Move(u, d1, fn)
+     \/ coin \in {3, 4, 5, 6, 7} /\ MoveSome(u, coin <= 5, fn)
      \/ coin = 8 /\ Move(v, d3, FALSE)
      \/ coin = 8 /\ Swap(i, j)
      \/ coin = 9 /\ Shift(w, v, d3)
      \/ coin = 9 /\ Shift(w, u, d2)
      \/ coin = 10 /\ Destroy(u)
-     \/ coin = 10 /\ BadMove(u, d4)
-     \/ Peek
+     \/ coin = 10 /\ BadSome(u)
+     \/ coin = 7 /\ Peek
+S1(coin, live) ==
+  S2(coin, Pick(live, 1), Pick(live, 1), Pick(live \cup {0}, 0), Rnd(Slots), Rnd(Slots), Rnd(BOOLEAN),
+     Pick(Cand(loc), SlotPl(1)), Rnd(SlotPlaces \cup StorePlaces))
+SimStep == S1(Rnd(1..10), Live(loc))
 SimNext == SimStep /\ hist' = Append(hist, last')
 SimSpec == SimInit /\ [][SimNext]_<<vars, hist>>
 SimDepth == 60
